@@ -83,6 +83,36 @@ def mutated_event_text(rng):
     return text
 
 
+WORD_PIECES = ["a", "b", "z9", "_", "foo", "Bar"]
+SEP_PIECES = [" ", "-", ".", "\n", "\t", "é", "’", "…", "—", "\U0001f600", "\u00a0", "ß", "İ", "\u0301", "\u200d", "*", "?", "\\", "[", "("]
+
+
+def word_pairs(rng, n):
+    """(pattern, text) pairs where the text is built around the pattern: occurrences glued into
+    longer words, overlapping repeats, multi-byte and case-folding neighbours on either side"""
+    out = []
+    for _ in range(n):
+        pat = "".join(rng.choice(WORD_PIECES + SEP_PIECES[:9]) for _ in range(rng.randint(1, 3)))
+        if rng.random() < 0.3:
+            i = rng.randint(0, len(pat))
+            pat = pat[:i] + rng.choice(["*", "?", "**", "*?"]) + pat[i:]
+        pieces = []
+        for _ in range(rng.randint(1, 5)):
+            r = rng.random()
+            if r < 0.45:
+                pieces.append(pat.replace("*", rng.choice(["", "x", "é"])).replace("?", rng.choice(["y", "é", " "])))
+            elif r < 0.6:
+                pieces.append(pat[:rng.randint(0, len(pat))])
+            elif r < 0.8:
+                pieces.append(rng.choice(WORD_PIECES))
+            else:
+                pieces.append(rng.choice(SEP_PIECES))
+            if rng.random() < 0.4:
+                pieces.append(rng.choice(SEP_PIECES + WORD_PIECES))
+        out.append([pat, "".join(pieces)])
+    return out
+
+
 def core_commands(ctx, n):
     """(command, entry-point family) pairs for the core probe"""
     rng = ctx.rng
@@ -124,6 +154,18 @@ def core_commands(ctx, n):
                     **({"before": rng.choice(["a", "b", ".m.rule.master", "", "zz"])} if rng.random() < 0.4 else {})}
                    for _ in range(rng.randint(1, 6))]
             out.append(({"op": "ruleset_ops", "start": rng.choice(["empty", "default"]), "ops": ops, "only_last_dump": True, "tolerant": True}, "push"))
+            # keyword / display-name matching on bodies built around the pattern
+            mode = rng.choice(["body", "body", "displayname", "key"])
+            pairs = word_pairs(rng, 40)
+            if mode == "displayname":
+                pairs = [[p_.replace("*", "").replace("?", "") or "x", t_] for p_, t_ in pairs]
+            out.append(({"op": "push_match_batch", "mode": mode, "items": pairs, "tolerant": True}, "push"))
+            pat, body = rng.choice(pairs)
+            rs2 = {"content": [{"rule_id": "kw", "default": False, "enabled": True, "actions": ["notify"], "pattern": pat}],
+                   "underride": [{"rule_id": "dn", "default": False, "enabled": True, "actions": ["notify"],
+                                  "conditions": [{"kind": "contains_display_name"}]}]}
+            out.append(({"op": "push_eval", "ruleset": json.dumps(rs2), "event": json.dumps({"type": "m.room.message", "sender": "@a:x.org", "content": {"body": body}}),
+                         "ctx": dict(CTX, user_display_name=pat.replace("*", "").replace("?", "") or "me"), "tolerant": True}, "push"))
         elif r < 0.52:
             t = rng.choice(sorted(idgen.SIGIL) + ["server_name", "mxc_uri", "any_signing_key_id", "server_signing_key_id",
                                                   "device_key_id", "cross_signing_key_id", "one_time_key_id", "room_version_id",
